@@ -304,8 +304,13 @@ def write_evidence(pid, tier, seed, mod, acc, wall, violations, notes):
           'level': 'exploration', 'coverage': cov,
           'assumptions': list(getattr(mod, 'ASSUMPTIONS', [])),
           'wall_s': round(wall, 3), 'violations': violations}
-    os.makedirs(os.path.join(VERIF_DIR, 'evidence'), exist_ok=True)
-    path = os.path.join(VERIF_DIR, 'evidence', pid + '.json')
+    evdir = os.path.join(VERIF_DIR, 'evidence')
+    if os.environ.get('VERIF_REPO_SRC'):
+        # sensitivity runs against a scratch copy must not touch the
+        # evidence of the real tree
+        evdir = os.path.join('/var/tmp', 'vf-scratch-evidence')
+    os.makedirs(evdir, exist_ok=True)
+    path = os.path.join(evdir, pid + '.json')
     with open(path, 'w') as f:
         json.dump(ev, f, indent=1, sort_keys=True)
     try:
